@@ -147,7 +147,7 @@ PROPS = {
                  + ["Ldlm.Lease.step_inv", "Ldlm.Pins.C05.pin_TimerReset"],
         streams=[CONC],
         level_text="M3a models one leased hold with any number of concurrent Unlock and Renew threads and the lease callback, one step per call into a manager, for EVERY schedule: an Unlock that answered unlocked=true implies the hold is out of the table or the callback stands right before its own lockMgr.Unlock; at quiescence it implies the hold is gone; a Renew answers locked=true only for a live hold with an armed lease, which stays armed; nothing puts the hold back. Proved by an inductive invariant over all schedules. The model follows the repaired TimerMap.Reset (one critical section; pinned to its source text). Tied to the code by exhaustive (preemption-bounded) + random exploration of Unlock || Renew || Renew || expiry on the instrumented real server, before and exactly at the deadline, with truth monitors and probes at quiescence and at the lease horizon.",
-        level_note="One hold in isolation is justified by key uniqueness and timer-key injectivity (C07). Session end racing with Renew is C06's territory (armed timer for a dead hold between D2 and D3, recorded under K2). The tie is outcome monitoring on explored schedules; per-action trace validation against M3a is planned. D7 was found by this check and repaired (fix: e566dad). time.Timer Stop/Reset semantics (Go >= 1.23) are modelled.",
+        level_note="One hold in isolation is justified by key uniqueness and timer-key injectivity (C07). Session end racing with Renew is C06's territory (armed timer for a dead hold between D2 and D3, recorded under K2). The tie is outcome monitoring on explored schedules plus manager-call trace validation: every distinct history of calls into the three managers for the observed hold must be a run of M3a with M3a's results (driver linlease). D7 was found by this check and repaired (fix: e566dad). time.Timer Stop/Reset semantics (Go >= 1.23) are modelled.",
         technique="Lean 4 proof (inductive invariant over all schedules of a thread-pool model) + controlled-interleaving exploration with truth monitors",
         trusted=CONC_TRUST,
     ),
@@ -158,7 +158,7 @@ PROPS = {
         status={P + "C06.destroy_releases_partial": "partial (hypothesis Clean: no grant of the hold in flight when the session entry is deleted)",
                 P + "C06.late_grant_leaks": "refutation witness (K2)", P + "C06.timer_for_dead_hold": "refutation witness (K2, second window)"},
         streams=[CONC, SEQ],
-        level_text="M3b follows one hold of the ending session through every thread that can touch it (its grant in three steps, any number of Unlock threads, the lease callback, the DestroySession thread), one step per call into a manager, for EVERY schedule: if the hold's grant had been answered when the session entry was deleted (Clean), then once nothing is in flight the hold is out of the table, has no lease-timer entry and no bookkeeping entry - whichever of Unlock / lease callback / session end got there first; after the grant the hold only ever leaves the table (unique releaser). The unrestricted statement is false of the code (K2: a grant in flight at D1 leaks the hold; a grant between AddLock and timer Add leaves an armed timer for a dead hold) - kernel-checked witnesses. DestroySession is pinned to its source text. Tied to the code by exploring session end || {TryLock, blocked Lock, Unlock, expiry} of the same session with another session holding, with hold-left / listing / other-session / panic monitors.",
+        level_text="M3b follows one hold of the ending session through every thread that can touch it (its grant in three steps, any number of Unlock threads, the lease callback, the DestroySession thread), one step per call into a manager, for EVERY schedule: if the hold's grant had been answered when the session entry was deleted (Clean), then once nothing is in flight the hold is out of the table, has no lease-timer entry and no bookkeeping entry - whichever of Unlock / lease callback / session end got there first; after the grant the hold only ever leaves the table (unique releaser). The unrestricted statement is false of the code (K2: a grant in flight at D1 leaks the hold; a grant between AddLock and timer Add leaves an armed timer for a dead hold) - kernel-checked witnesses. DestroySession is pinned to its source text. Tied to the code by exploring session end || {TryLock, blocked Lock, Unlock, expiry} of the same session with another session holding, with hold-left / listing / other-session / panic monitors, and by manager-call trace validation: every distinct history of calls into the three managers for each observed hold of the ending session must be a run of M3b with M3b's results (driver linsess).",
         level_note="PARTIAL by K2 (recorded, not repaired: a repair needs AddLock to refuse ended sessions, an interface change). 'Other sessions untouched' is structural in the model (one hold = one state) and checked on the code by the monitors. With no-clear-on-disconnect DestroySession returns after D1 (M2: Core.destroy). The panic half of D10 (RemoveLock on a deleted entry) was repaired with D2 (fix: e6a606e). gRPC/REST delivery of ConnEnd is exercised by C20/stack streams, not modelled here.",
         technique="Lean 4 proof (inductive invariant over all schedules, backwards-propagating ghost flag for the excluded window) + controlled-interleaving exploration",
         trusted=CONC_TRUST,
